@@ -112,11 +112,11 @@ def t_spy_on(host, kind):
             spy1, tup1 = view(it, spy), view(it, tup)
             itA, nA = c.pyghost['spy_after_handler']
             nm, sg = sval(name_of(raw)), sval(c.hget(e, 'signal_name'))
-            f1, f2 = B.fmt_func('{}:{}', 2), B.fmt_func('{}:{}:HOOK', 2)
+            line1, line2 = B.fmt_text(c, '{}:{}', sg, nm), B.fmt_text(c, '{}:{}:HOOK', sg, nm)
             inner = kind != 'user'
             hook = z3.And(status == it.w.statuses['HANDLED'], z3.BoolVal(not inner))
             c.prove('_spy_on[%s]:spy/invocation-line-first' % kind,
-                    z3.Implies(instr, sval(spy1.at(spy0.len)) == f1(sg, nm)) if f1 is not None else z3.Not(instr),
+                    z3.Implies(instr, sval(spy1.at(spy0.len)) == line1),
                     tags=('C19',))
             c.prove('_spy_on[%s]:spy/earlier-lines-kept' % kind,
                     z3.ForAll([z3.Int('i!p')], z3.Implies(z3.And(0 <= z3.Int('i!p'), z3.Int('i!p') < spy0.len),
@@ -125,8 +125,7 @@ def t_spy_on(host, kind):
                     z3.Implies(instr, spy1.len == nA + z3.If(hook, 1, 0)), tags=('C19',))
             if not inner:
                 c.prove('_spy_on[%s]:spy/hook-line-names-the-event-and-this-state' % kind,
-                        z3.Implies(z3.And(instr, hook), sval(spy1.at(nA)) == f2(sg, nm)) if f2 is not None
-                        else z3.Not(z3.And(instr, hook)), tags=('C19',))
+                        z3.Implies(z3.And(instr, hook), sval(spy1.at(nA)) == line2), tags=('C19',))
             c.prove('_spy_on[%s]:spy/one-tuple-per-invocation' % kind,
                     z3.Implies(instr, tup1.len == tup0.len + 1), tags=('C19', 'C20'))
             t = tup1.at(tup0.len)
@@ -612,10 +611,7 @@ MARKER_TEXT = {'post_fifo': 'POST_FIFO:{}', 'post_lifo': 'POST_LIFO:{}', 'defer'
 def _is_line(c, ref, literal, name_ref):
     """ref is the text <literal>.format(name): str.format is an uninterpreted constructor keyed by the literal, so a
     different literal or a different argument is a different (unprovable) text."""
-    f = B.fmt_func(literal, 1)
-    if f is None:
-        return z3.BoolVal(False)
-    return z3.And(ref != NONE, sval(ref) == f(sval(name_ref)))
+    return z3.And(ref != NONE, sval(ref) == B.fmt_text(c, literal, sval(name_ref)))
 
 
 def t_marker(op, host='HsmWithQueues'):
